@@ -150,7 +150,7 @@ func (db *DB) reconstructSSTables() error {
 			if incomplete {
 				// the process died while this table was flushed, its content is still in the WAL
 				log.Printf("found incomplete sstable to be deleted in %v", p)
-				err = os.RemoveAll(p)
+				err = removeIncompleteSSTable(p)
 				if err != nil {
 					return err
 				}
@@ -203,6 +203,24 @@ func isIncompleteSSTable(tablePath string) (bool, error) {
 		return false, err
 	}
 	return info.Size() == 0, nil
+}
+
+// removeIncompleteSSTable deletes the empty metadata file last: it is what marks the table as incomplete, so the
+// deletion can be interrupted at any point and is simply repeated by the next recovery.
+func removeIncompleteSSTable(tablePath string) error {
+	entries, err := os.ReadDir(tablePath)
+	if err != nil {
+		return err
+	}
+	for _, e := range entries {
+		if e.Name() != sstables.MetaFileName {
+			err = os.RemoveAll(filepath.Join(tablePath, e.Name()))
+			if err != nil {
+				return err
+			}
+		}
+	}
+	return os.RemoveAll(tablePath)
 }
 
 func (db *DB) replayAndSetupWriteAheadLog() error {
